@@ -111,7 +111,12 @@ def issues_from_validation(ctx, res, label, rerun=None):
             except ValueError:
                 endev = {}
             if endev.get("window", 1) > 1:
-                issues += _attribute_leak(ctx, rerun, case, endev["window"], label)
+                # at most three windows are re-run per pass: further ones
+                # almost always repeat the same defect
+                rerun["done"] = rerun.get("done", 0) + 1
+                if rerun["done"] <= 3:
+                    issues += _attribute_leak(ctx, rerun, case, endev["window"],
+                                              label)
                 continue
         if evname == "End" or (f["event"] or "").startswith('{"e":"End"'):
             sig = "LoadContract:%s:End:%s:ok%s" % (par, field, ld.get("ok"))
@@ -229,6 +234,31 @@ def _tally(tr, stats):
             muts[ev["mut"]] = muts.get(ev["mut"], 0) + 1
 
 
+def _thin_out(tr, stats, keep=3):
+    """Cost control on a badly failing tree: episodes that end with a leak /
+    live-block verdict are certain rejections (the spec requires leak = 0 and
+    live = 0).  Only the first `keep` of them per parser go to TLC; the rest
+    are dropped from the trace and counted -- never counted as passing."""
+    seen = {}
+    dropped = 0
+    out = tr + ".thin"
+    with open(out, "w") as dst:
+        for start, lines in vlib.split_episodes(tr):
+            last = lines[-1] if lines else ""
+            bad = last.startswith('{"e":"End"') and (
+                '"leak":1' in last or '"live":0,' not in last)
+            if bad:
+                k = parser_of(_load_event(lines).get("kind"))
+                seen[k] = seen.get(k, 0) + 1
+                if seen[k] > keep:
+                    dropped += 1
+                    continue
+            dst.writelines(lines)
+    os.replace(out, tr)
+    stats["dropped_duplicate_leak_episodes"] = (
+        stats.get("dropped_duplicate_leak_episodes", 0) + dropped)
+
+
 def _run_mode(ctx, exe, label, name, mkargs, total, stats, issues, nshards=None,
               timeout=1800):
     paths, crashes = common.run_sharded(exe, mkargs, total, ctx.work, name,
@@ -246,6 +276,7 @@ def _run_mode(ctx, exe, label, name, mkargs, total, stats, issues, nshards=None,
     for p in paths:
         common.strip_crashed_episodes(p)
     tr = common.concat(paths, os.path.join(ctx.work, name + "-all.ndjson"))
+    _thin_out(tr, stats)
     res = vlib.validate_sharded(TRACE[0], TRACE[1], tr, ctx.work,
                                 shards=vlib.NCPU)
     ctx.machinery_errors += res["errors"]
